@@ -39,6 +39,7 @@ def generate(rng, tier):
         # doctest into parts
         cfg['p_dir'] = rng.choice([0.08, 0.2])
         cfg['p_inline_dir'] = rng.choice([0.0, 0.15])
+    cfg['p_indent'] = rng.choice([0.0, 0.3, 0.6])
     flavour = rng.choice(['sync', 'sync', 'async', 'async', 'mixed'])
     if flavour != 'sync':
         cfg['async_forms'] = list(gen.ASYNC_FORMS)
